@@ -11,7 +11,7 @@ import common
 import gen
 
 
-def run_logger(binary, workdir, data, chunks, pause_ms, slow_disk=None, log_events=False):
+def run_logger(binary, workdir, data, chunks, pause_ms, slow_disk=None, log_events=False, tz=None):
     """Run the rtcmlogger binary: feed stdin in chunks, capture stdout, read the day's record file after exit.
     slow_disk = (record file name, stall seconds): the day's record file is a named pipe whose reader (this
     harness, playing a slow disk) stalls before it takes anything, so the recorder goroutine blocks in Write while
@@ -37,8 +37,15 @@ def run_logger(binary, workdir, data, chunks, pause_ms, slow_disk=None, log_even
         disk.start()
     cfg = os.path.join(workdir, "cfg.json")
     with open(cfg, "w") as f:
-        json.dump({"log_events": log_events, "message_log_directory": workdir, "event_log_directory": workdir}, f)
-    p = subprocess.Popen([binary, "-c", cfg], stdin=subprocess.PIPE, stdout=subprocess.PIPE, stderr=subprocess.PIPE, cwd=workdir)
+        conf = {"log_events": log_events, "message_log_directory": workdir, "event_log_directory": workdir}
+        if tz:
+            # the remaining keys of the configuration file as well, and the machine in another time zone (the day's
+            # record is the one dailylogger names after the local date)
+            os.makedirs(os.path.join(workdir, "old"), exist_ok=True)
+            conf["directory_for_old_message_logs"] = os.path.join(workdir, "old")
+        json.dump(conf, f)
+    p = subprocess.Popen([binary, "-c", cfg], stdin=subprocess.PIPE, stdout=subprocess.PIPE, stderr=subprocess.PIPE, cwd=workdir,
+                         env=(dict(os.environ, TZ=tz) if tz else None))
     out = bytearray()
 
     def reader():
@@ -180,7 +187,8 @@ def run(res, args):
     def one(ij):
         i, (data, chunks, pause, tag) = ij
         # every third run with the event log switched on (the event log is a third output; it must not touch the other two)
-        return run_logger(binary, os.path.join(wd, "run%d" % i), data, chunks, pause, log_events=(i % 3 == 1))
+        return run_logger(binary, os.path.join(wd, "run%d" % i), data, chunks, pause, log_events=(i % 3 == 1),
+                          tz=([None, "America/Los_Angeles", None, "Pacific/Auckland", None, "UTC"][i % 6]))
     with ThreadPoolExecutor(max_workers=8) as ex:
         results = list(ex.map(one, enumerate(jobs)))
     for (data, chunks, pause, tag), (rc, out, rec) in zip(jobs, results):
